@@ -80,7 +80,8 @@ class EncoderModel:
             return c if many else c[0]
 
         self.header_writer = method_with(lambda f: any(True for _ in f.calls(PKT + "::getRawMessageHeader")), "message-header writer")
-        self.template_builder = method_with(lambda f: any(True for _ in f.calls(PKT + "::getRawCmpHeader")), "template builder")
+        self.template_builder = method_with(lambda f: any(strip_all_casts(c.get("obj", {})).get("field") == self.template
+                                                          for c in f.calls("std::vector::resize")), "template builder (sizes the template)")
         self.putPacket = method_with(lambda f: f.cfg_raw and any(
             PKT + "::getPayloadLength" in called_names(fn_node) for _, fn_node in
             [(b, f.node(f.cfg.blocks[b]["cond"])) for b, _ in paths.loop_header(f) if f.cfg.blocks[b].get("cond", -1) >= 0]),
@@ -236,32 +237,41 @@ def rule_frame_stamped(res, rid, m):
 
 
 def rule_identity(res, rid, m):
-    """C09-R3/R4: template = packet's raw CMP header, then device/stream id from the
+    """C09-R3/R4: wherever a packet's raw CMP header is written into the frame template
+    (or a frame), device id and stream id are afterwards overridden from the encoder's
     members; changing an id invalidates the template and resets the counter."""
-    f = m.template_builder
-    raw = list(f.calls(PKT + "::getRawCmpHeader"))
-    cfg = f.cfg
-    order = {}
-    i = 0
-    for b in sorted(cfg.blocks, reverse=True):
-        for e in cfg.blocks[b].get("el", []):
-            order[e] = i
-            i += 1
-    okraw = len(raw) == 1 and m.template in depends(f, raw[0]["args"][0])[0]
-    res.check(okraw, rid, "template:raw-header", raw[0].get("loc") if raw else f.loc, "template starts as the packet's raw CMP header (version, message type)",
-              "template is not built from Packet::getRawCmpHeader into the template buffer")
-    for setter, member, what in ((CH + "::setDeviceId", m.deviceId, "device id"), (CH + "::setStreamId", m.streamId, "stream id")):
-        cs = list(f.calls(setter))
-        ok = False
-        for c in cs:
-            on_tpl = m.template in depends(f, c["obj"])[0]
-            from_member = strip_all_casts(c["args"][0]).get("field") == member
-            after = bool(raw) and order.get(c["id"], -1) > order.get(raw[0]["id"], 10 ** 9)
-            if on_tpl and from_member and after:
-                ok = True
-        res.check(ok, rid, "template:" + what.replace(" ", "-"), cs[0].get("loc") if cs else f.loc,
-                  "%s of the template is the encoder's member, written after the raw header copy" % what,
-                  "template %s is not overridden from the encoder's configured value after the raw header copy" % what)
+    n_raw = 0
+    for f in m.methods:
+        raws = [c for c in f.calls(PKT + "::getRawCmpHeader") if {m.template, m.frames} & depends(f, c["args"][0])[0]]
+        if not raws:
+            continue
+        cfg = f.cfg
+        order = {}
+        i = 0
+        for b in sorted(cfg.blocks, reverse=True):
+            for e in cfg.blocks[b].get("el", []):
+                order[e] = i
+                i += 1
+        for raw in raws:
+            n_raw += 1
+            tag = f.name.split("::")[-1]
+            res.ok(rid, "%s:raw-header" % tag, raw.get("loc"), "frame template starts as the packet's raw CMP header (version, message type)")
+            for setter, member, what in ((CH + "::setDeviceId", m.deviceId, "device id"), (CH + "::setStreamId", m.streamId, "stream id")):
+                cs = list(f.calls(setter))
+                ok = False
+                for c in cs:
+                    on_tpl = bool({m.template, m.frames} & depends(f, c["obj"])[0])
+                    from_member = strip_all_casts(c["args"][0]).get("field") == member
+                    bc, br = cfg.block_for(c), cfg.block_for(raw)
+                    after = (bc == br and order.get(c["id"], -1) > order.get(raw["id"], 10 ** 9)) or (bc != br and bc in cfg.postdominators().get(br, set()))
+                    if on_tpl and from_member and after:
+                        ok = True
+                res.check(ok, rid, "%s:%s" % (tag, what.replace(" ", "-")), raw.get("loc"),
+                          "%s is overridden with the encoder's member after the raw header copy" % what,
+                          "%s writes a packet's raw CMP header into the frame template without overriding the %s with the encoder's configured "
+                          "value afterwards: frames carry the packet's own %s" % (f.name, what, what))
+    if n_raw == 0:
+        raise Broken("no function writes a raw CMP header into the frame template")
     # setters of the ids
     for member, what in ((m.deviceId, "device id"), (m.streamId, "stream id")):
         for wf, kind, n in m.writes.get(member, []):
@@ -356,10 +366,19 @@ def rule_type_change_rebuilds_template(res, rid, m):
     for p in ps:
         wrote = False
         fresh = False
+        # the path itself may have established that the cached template already announces the new type, or is empty
+        for a in p.atoms:
+            if a[0] == "cmp" and a[2] == "==" and CH + "::getMessageType" in (called_names(a[4]) | called_names(a[5])) and \
+                    m.template in (depends(f, a[4])[0] | depends(f, a[5])[0]):
+                fresh = True
+            if a[0] == "truth" and a[2] is True and a[3].get("k") == "call" and (a[3].get("callee") or {}).get("nm") == "empty" and \
+                    strip_all_casts(a[3].get("obj", {})).get("field") == m.template:
+                fresh = True
+        path_fresh = fresh
         for _, x in p.elems():
             if x.get("k") == "assign" and lvalue_root(x["l"]) == m.msgtype:
                 wrote = True
-                fresh = False
+                fresh = path_fresh
             elif x.get("k") == "call":
                 g = m.fb.resolve_call(x)
                 nm = (x.get("callee") or {}).get("nm")
@@ -367,6 +386,9 @@ def rule_type_change_rebuilds_template(res, rid, m):
                     fresh = True
                 elif g is m.template_builder:
                     fresh = True
+                elif callee_name(x) in (PKT + "::getRawCmpHeader", CH + "::setMessageType") and \
+                        m.template in depends(f, x["args"][0] if callee_name(x).endswith("getRawCmpHeader") else x.get("obj", {}))[0]:
+                    fresh = True  # the template's header (incl. message type) is rewritten from the current packet
                 elif g is not None and g.rec == ENC and m.template in m.eff.summary(g)[0] and g is not m.opener:
                     fresh = True
                 elif g is not None and g.rec == ENC and m.may_open(g) and wrote:
@@ -473,6 +495,57 @@ def frame_resizes(m):
     return out
 
 
+def narrowings(fn, e, limit_bits=64):
+    """Integer conversions to fewer than limit_bits inside expression e and the
+    initialisers of the single-definition locals it uses."""
+    out = []
+    for x in expand_locals(fn, e):
+        if x.get("k") == "cast" and x.get("ck") == "IntegralCast":
+            t = x.get("t") or {}
+            fr = x.get("from") or {}
+            if t.get("bits", 64) < limit_bits and fr.get("bits", 0) > t.get("bits", 64) and const_value(x) is None:
+                out.append(x)
+    return out
+
+
+def expand_locals(fn, n, depth=3):
+    defs = facts.local_defs(fn)
+    out = []
+    st = [(n, depth)]
+    seen = set()
+    while st:
+        x, d = st.pop()
+        for y in walk(x):
+            out.append(y)
+            if y.get("k") == "ref" and y.get("dk") == "local" and d > 0 and y["decl"] not in seen:
+                ds = defs.get(y["decl"], [])
+                if len(ds) == 1:
+                    seen.add(y["decl"])
+                    st.append((ds[0], d - 1))
+    return out
+
+
+def trims_frame(m, fn, _seen=None):
+    """fn trims the current frame on every path (directly or through a callee)."""
+    _seen = _seen or set()
+    if fn.key in _seen:
+        return False
+    _seen.add(fn.key)
+    direct = {c["id"] for ff, c, kind in frame_resizes(m) if ff is fn and kind == "frame"}
+    for p in paths.enumerate_paths(fn):
+        ok = False
+        for _, x in p.elems():
+            if x["id"] in direct:
+                ok = True
+            elif x.get("k") == "call":
+                g = m.fb.resolve_call(x)
+                if g is not None and g.rec == ENC and g is not fn and g is not m.opener and trims_frame(m, g, _seen):
+                    ok = True
+        if not ok:
+            return False
+    return True
+
+
 def rule_frames_zeroed_trimmed(res, rid, m):
     rs = frame_resizes(m)
     nt = nf = 0
@@ -481,18 +554,29 @@ def rule_frames_zeroed_trimmed(res, rid, m):
         fill0 = len(a) == 1 or (len(a) == 2 and const_value(a[1]) == 0)  # resize(n) value-initialises new bytes
         if kind == "template":
             nt += 1
-            ok = fill0 and reads(a[0]) == {m.maxBytes}
+            ok = fill0 and depends(f, a[0])[0] & {m.maxBytes, m.minBytes, m.bytesLeft} == {m.maxBytes}
             res.check(ok, rid, "template:resize", c.get("loc"), "template sized to the maximum frame size, zero-filled",
                       "frame template is sized by %s: not `resize(max, 0)`" % canon(c))
         else:
             nf += 1
             mx = strip_all_casts(a[0]) if a else {}
-            okmax = mx.get("k") == "call" and callee_name(mx) == "std::max" and any(reads(x) == {m.minBytes} for x in mx.get("args", [])) and \
-                any(m.bytesLeft in reads(x) for x in mx.get("args", []))
+            okmax = mx.get("k") == "call" and callee_name(mx) == "std::max" and len(mx.get("args", [])) == 2
+            used = None
+            if okmax:
+                d = [depends(f, x)[0] & {m.maxBytes, m.minBytes, m.bytesLeft} for x in mx["args"]]
+                if d[0] == {m.minBytes} and m.bytesLeft in d[1]:
+                    used = mx["args"][1]
+                elif d[1] == {m.minBytes} and m.bytesLeft in d[0]:
+                    used = mx["args"][0]
+                okmax = used is not None
             res.check(fill0 and okmax, rid, "frame:trim:%s" % f.name.split("::")[-1], c.get("loc"),
                       "frame trimmed to max(used, min) with explicit zero fill",
                       "frame resized by %s: expected resize(max(used bytes, minimum), 0)" % canon(c))
-    # reserve must not be used to size frames
+            if used is not None:
+                nar = narrowings(f, used)
+                res.check(not nar, rid, "frame:trim-width:%s" % f.name.split("::")[-1], c.get("loc"), "used-byte count is computed in size_t",
+                          "the used-byte count of a frame is converted to %s before the trim: frames using 2^%d bytes or more are cut short" %
+                          ((nar[0].get("t") or {}).get("s") if nar else "", (nar[0].get("t") or {}).get("bits", 0) if nar else 0))
     for f in m.methods:
         for c in f.calls("std::vector::reserve"):
             d, _ = depends(f, c.get("obj", {}))
@@ -502,14 +586,15 @@ def rule_frames_zeroed_trimmed(res, rid, m):
     f = m.opener
     cfg = f.cfg
     pushes = [n for ff, k, n in m.writes.get(m.frames, []) if k == "call:push_back" and ff is f]
-    trims = [c for ff, c, kind in rs if ff is f and kind == "frame"]
+    direct = {c["id"] for ff, c, kind in rs if ff is f and kind == "frame"}
+    trims = [x for x in f.calls() if x["id"] in direct or (m.fb.resolve_call(x) is not None and m.fb.resolve_call(x).rec == ENC and
+                                                          m.fb.resolve_call(x) is not f and trims_frame(m, m.fb.resolve_call(x)))]
     mf = MustFacts(f)
     for pb in pushes:
         ok = False
         for t in trims:
             bt, bp = cfg.block_for(t), cfg.block_for(pb)
-            before = (bt == bp and cfg.pos_of[t["id"]] < cfg.pos_of[pb["id"]]) or (bt != bp and bt not in () and not cfg.dominates(bp, bt))
-            # the trim may be skipped only when the list is empty
+            before = (bt == bp and cfg.pos_of[t["id"]] < cfg.pos_of[pb["id"]]) or (bt != bp and not cfg.dominates(bp, bt))
             guard = [a for a in mf.at(t) if a[0] == "truth" and "empty" in a[1]]
             skip_only_if_empty = cfg.dominates(bt, bp) or (guard and guard[0][2] is False)
             if before and skip_only_if_empty:
@@ -517,8 +602,16 @@ def rule_frames_zeroed_trimmed(res, rid, m):
         res.check(ok, rid, "opener:trim-before-push", pb.get("loc"), "previous frame is trimmed before a new one is pushed (skipped only when there is none)",
                   "a new frame is pushed without trimming the previous one")
     fin = m.finisher
-    ft = [c for ff, c, kind in rs if ff is fin and kind == "frame"]
-    res.check(len(ft) >= 1, rid, "finisher:trim", fin.loc, "last frame is trimmed before the frames are returned", "the last frame is not trimmed before return")
+    okfin = False
+    for p in paths.enumerate_paths(fin):
+        r = p.returns()
+        if r is None or not any(True for _ in p.elems()):
+            continue
+        moved = [x for _, x in p.elems() if x.get("k") == "member" and x.get("field") == m.frames]
+    fdirect = {c["id"] for ff, c, kind in rs if ff is fin and kind == "frame"}
+    ftr = [x for x in fin.calls() if x["id"] in fdirect or (m.fb.resolve_call(x) is not None and m.fb.resolve_call(x).rec == ENC and
+                                                            trims_frame(m, m.fb.resolve_call(x)))]
+    res.check(len(ftr) >= 1, rid, "finisher:trim", fin.loc, "last frame is trimmed before the frames are returned", "the last frame is not trimmed before return")
     return nt, nf
 
 
